@@ -18,13 +18,26 @@ import (
 
 const fillBatch = 250
 
-// expand is the value an update really carries: a string value lengthened by pad bytes
-// (scenarios stay small; large values are what makes gRPC flow control bite).
+// expand is the value an update really carries: a string or bytes value lengthened by pad bytes
+// (scenarios stay small; large values are what makes gRPC flow control - and message size limits - bite).
 func expand(v gn.Val, pad int) gn.Val {
-	if pad > 0 && v.Kind == "string" {
-		v.S += strings.Repeat("x", pad)
+	if pad > 0 {
+		switch v.Kind {
+		case "string":
+			v.S += strings.Repeat("x", pad)
+		case "bytes":
+			v.S += strings.Repeat("\x00\xfey", pad/3+1)[:pad]
+		}
 	}
 	return v
+}
+
+// batchOf: how many leaves of a "fill" travel in one notification.
+func batchOf(o Op) int {
+	if o.Bulk > 0 {
+		return o.Bulk
+	}
+	return fillBatch
 }
 
 func originOf(o Op) string {
@@ -42,7 +55,7 @@ func contKey(o Op) []string {
 // fillOp is the i-th leaf of a "fill" op as a plain update.
 func fillOp(o Op, i int) Op {
 	return Op{Kind: "update", Origin: o.Origin, PTarget: o.PTarget, NoPrefix: o.NoPrefix, Path: []gn.Elem{{Name: "fill"}, {Name: "e", Keys: map[string]string{"id": fmt.Sprint(i)}}, {Name: "v"}},
-		Val: gn.Val{Kind: "string", S: fmt.Sprintf("f%d.%d", o.Ver, i)}, Pad: o.Pad}
+		Val: gn.Val{Kind: "string", S: fmt.Sprintf("f%d.%d", o.Ver, i)}, Pad: o.Pad, Bulk: o.Bulk}
 }
 
 // prefixOf is the prefix message of the notification an op is sent as: origin and target as the device writes them
@@ -265,9 +278,9 @@ func wire(o Op, ts *int64) []*pb.SubscribeResponse {
 		return []*pb.SubscribeResponse{resp(n)}
 	case "fill":
 		var out []*pb.SubscribeResponse
-		for i := 0; i < o.N; i += fillBatch {
+		for i, batch := 0, batchOf(o); i < o.N; i += batch {
 			n := &pb.Notification{Timestamp: next(ts), Prefix: prefixOf(o, nil, false)}
-			for j := i; j < o.N && j < i+fillBatch; j++ {
+			for j := i; j < o.N && j < i+batch; j++ {
 				f := fillOp(o, j)
 				n.Update = append(n.Update, &pb.Update{Path: gn.Path("", "", f.Path, false, 0), Val: expand(f.Val, f.Pad).TV()})
 			}
@@ -280,8 +293,9 @@ func wire(o Op, ts *int64) []*pb.SubscribeResponse {
 
 // report is what the device sends first on a new stream after a break: its current state.
 // Plain leaves in the elem encoding travel bundled per origin and per way the device fills in
-// the rest of the prefix (a device reports its state in bulk), everything else as the
-// notification that created it.
+// the rest of the prefix (a device reports its state in bulk: 250 leaves per notification, or as
+// many as the bulk notification that wrote them carried - a device that dumps a table in ONE
+// notification does so on every stream), everything else as the notification that created it.
 func (m *model) report(ts *int64) []*pb.SubscribeResponse {
 	var out []*pb.SubscribeResponse
 	bundles := map[string]*pb.Notification{}
@@ -292,7 +306,7 @@ func (m *model) report(ts *int64) []*pb.SubscribeResponse {
 			out = append(out, wire(*u, ts)...)
 			continue
 		}
-		bk := fmt.Sprintf("%s\x00%s\x00%v", u.Origin, u.PTarget, u.NoPrefix)
+		bk := fmt.Sprintf("%s\x00%s\x00%v\x00%d", u.Origin, u.PTarget, u.NoPrefix, u.Bulk)
 		n := bundles[bk]
 		if n == nil {
 			n = &pb.Notification{Prefix: prefixOf(*u, nil, false)}
@@ -301,7 +315,7 @@ func (m *model) report(ts *int64) []*pb.SubscribeResponse {
 		}
 		all := append(append([]gn.Elem{}, u.Prefix...), u.Path...)
 		n.Update = append(n.Update, &pb.Update{Path: gn.Path("", "", all, false, 0), Val: expand(u.Val, u.Pad).TV()})
-		if len(n.Update) >= fillBatch {
+		if len(n.Update) >= batchOf(*u) {
 			n.Timestamp = next(ts)
 			out = append(out, resp(n))
 			delete(bundles, bk)
